@@ -835,6 +835,21 @@ func racePass(tier, cache, work string, wenv []string) ([]Violation, string, err
 	if !strings.Contains(out, "racepass done") {
 		return nil, "", fmt.Errorf("racepass did not finish:\n%s", tail(out, 3000))
 	}
+	var burst []Violation
+	for _, kind := range []string{"BURST HANG", "BURST DIFF"} {
+		if i := strings.Index(out, kind+":"); i >= 0 {
+			body := out[i:]
+			if j := strings.Index(body, "END "+kind); j >= 0 {
+				body = body[:j]
+			}
+			sig := "C10 a burst of concurrent calls does not return (free-running pass) [nondet-ok]"
+			if kind == "BURST DIFF" {
+				sig = "C10 a call in a burst of concurrent calls returns something else than alone (free-running pass) [nondet-ok]"
+			}
+			cs, _ := json.Marshal(map[string]any{"scenario": "racepass-burst", "note": "free-running pass; rerun `vcheck C10` to reproduce"})
+			burst = append(burst, Violation{Sig: sig, Detail: tail(body, 3000), Case: cs})
+		}
+	}
 	blocks := strings.Split(out, "WARNING: DATA RACE")
 	frameRe := regexp.MustCompile(regexp.QuoteMeta(repoDir) + `/((?:internal|pkg|cmd/commands)/[^\s:]+\.go):\d+`)
 	seen := map[string]bool{}
@@ -861,5 +876,6 @@ func racePass(tier, cache, work string, wenv []string) ([]Violation, string, err
 		cs, _ := json.Marshal(map[string]any{"scenario": "racepass", "note": "free-running -race pass; rerun `vcheck C10` to reproduce"})
 		vs = append(vs, Violation{Sig: sig, Detail: tail("WARNING: DATA RACE"+b, 3000), Case: cs})
 	}
-	return vs, fmt.Sprintf("free-running -race pass: %s rounds x 6 scenarios, %d race report(s), %d distinct", rounds, len(blocks)-1, len(vs)), nil
+	vs = append(vs, burst...)
+	return vs, fmt.Sprintf("free-running -race pass: %s rounds x 10 scenarios (each body 4x) + bursts of 17/33/65 concurrent calls, %d race report(s), %d distinct", rounds, len(blocks)-1, len(vs)), nil
 }
